@@ -312,6 +312,11 @@ func (p *parser) cons(depth int) *Cons {
 		c.Op = op
 		c.A = p.cons(depth + 1)
 		c.B = p.cons(depth + 1)
+		// A is never nil and B is nil exactly for "not": the protocol cannot express a nil dereference
+		if c.A == nil || (c.B == nil) != (op == "not") {
+			p.bad = true
+			return nil
+		}
 	default:
 		p.bad = true
 		return nil
@@ -351,6 +356,10 @@ func (p *parser) perm(depth int) *PermC {
 		r.Relation, r.EdgeType = p.str(), p.str()
 		r.Any = p.cons(depth + 1)
 		r.All = p.cons(depth + 1)
+		if (r.Relation != "parent" && r.Relation != "child") || (r.Any == nil) == (r.All == nil) {
+			p.bad = true
+			return nil
+		}
 		c.Rel = r
 	default:
 		p.bad = true
